@@ -206,6 +206,20 @@ var families = []family{
 	{"comments-and-doctypes", false, func(_ string, n int) ([]spec.Op, string) {
 		return everythingPolicy(), rep("<!-- c --><!DOCTYPE x><?pi?>", n)
 	}},
+	{"data-attributes", false, func(_ string, n int) ([]spec.Op, string) {
+		var b strings.Builder
+		b.WriteString("<b data-" + rep("x", n) + "=v data-" + rep("data-", n/4) + "z=v")
+		for i := 0; i < n/8; i++ {
+			fmt.Fprintf(&b, " data-k%d=v data-xml%d=v data-A%d=v", i, i, i)
+		}
+		return everythingPolicy(), b.String() + ">x</b>"
+	}},
+	{"long-url-parts", false, func(_ string, n int) ([]spec.Op, string) {
+		return everythingPolicy(), `<a href="http://` + rep("u", n/4) + `:p@` + rep("h.", n/4) + `example.org:80/` + rep("p/", n/4) + `?` + rep("q", n/4) + `#` + rep("f", n/4) + `">x</a><img src="` + rep("../", n/3) + `x.png"><blockquote cite="mailto:` + rep("a", n) + `@example.org">y</blockquote>`
+	}},
+	{"style-attribute-repeated", false, func(_ string, n int) ([]spec.Op, string) {
+		return stylePolicy("color", "font-family", "margin"), rep(`<span style="color: red; font-family: 'a b', c; margin: 1px 2px 3px 4px">x</span>`, n/8+1)
+	}},
 	{"same-name-nesting", false, func(_ string, n int) ([]spec.Op, string) {
 		return []spec.Op{{K: spec.KUGC}}, rep("<a><a href=x>", n) + "x" + rep("</a></a>", n)
 	}},
